@@ -107,6 +107,7 @@ def r2b_key_faithful(ctx):
     sub = type(ctx)(ctx.prop, ctx.tier, ctx.facts, ctx.facts_info, ctx.seed)
     c05.r1_placement(sub)
     c05.r23_stacks(sub)
+    c05.r5_tables(sub)
     for s in sub.samples:
         ctx.ob(s['rule'].replace('C05.', 'C17.R2/C05.'), s['function'], s['instance'], s['ok'], found=s['found'], expected=s['expected'],
                why='a recurrence separated by a lapsed en-passant opportunity or by a loss of castling rights must not be counted as the same '
